@@ -7,6 +7,16 @@
  *                                                                          KMeansJumpMethod, PCARankValidation, UPLSRandomGroupsCV, UPLSYScrambling, StochasticUniversalSample,
  *                                                                          RouletteWheelselection, train_test_split, random_kfold_group_generator, MatrixInitRandomInt/Float
  *        c06_drv <out.ndjson> eplscv <seed> <ncases>                      EPLS as the learner of BootstrapRandomGroupsCV / LeaveOneOut / KFoldCV, thread counts 1..8
+ *        c06_drv <out.ndjson> sched  <seed> <schedule-file> <NW> <K> 2    the CV with NW-1 workers next to a DISTURBER thread (another caller of the library seeding with the
+ *                                                                          seed of the first worker and drawing): the disturber owns the NW-th letter of the word
+ *        c06_drv <out.ndjson> dsched <seed> <schedule-file> <K> [first]    every directly called drawing routine on a fresh thread next to a disturber thread, the first
+ *                                                                          2K+1 generator steps of both forced by the word
+ *        c06_drv <out.ndjson> classes <seed> <ncases> [first]              stratified input/history classes (INPUT-CLASSES.md K1..K10) for the three schemes x three learners:
+ *                                                                          thread counts 1..8 (incl. 5 and 7), inner processor counts 1/2/3, reused outputs, another fit in
+ *                                                                          between, residual output, wide / single column / multi-response shapes, offsets, magnitudes,
+ *                                                                          duplicates, label alphabets, concurrent disturber
+ *        c06_drv <out.ndjson> hist   <seed> <ncases>                       in-process histories: fit A, free, fit B at the addresses A had, into the output A filled -
+ *                                                                          must equal B computed alone in a fresh process
  * Trace per run:  Reset ; Run{..} ; Seq{h} ; (Seed|Wrote|Read|Clock|Clear)* ; Result{h} ; End
  *   Seed{w,s}   : thread w entered srand_(s)
  *   Wrote{w,v,a}: thread w stored v into the generator word at address class a (srand_ or write half of a draw)
@@ -20,6 +30,7 @@
 #include <time.h>
 #include <errno.h>
 #include <fcntl.h>
+#include <sched.h>
 
 #define MAXT 64
 #define MAXEV 400000
@@ -84,6 +95,31 @@ time_t time(time_t *t){
   if(t) *t = v;
   return v;
 }
+/* libc's process-wide generators: state shared by all threads outside the seeded stream.  The library must not use them in
+   the routines driven here; every call made while a library routine runs is counted and handed to TLC (Result.libc must be 0). */
+static volatile int lib_running = 0; static int nlibc = 0; static uint32_t libc_state = 12345;
+static pthread_mutex_t libc_mu = PTHREAD_MUTEX_INITIALIZER;
+static int libc_step(void){ pthread_mutex_lock(&libc_mu); if(lib_running) nlibc++; libc_state = libc_state * 1103515245u + 12345u; int v = (int)((libc_state >> 1) & 0x3fffffff); pthread_mutex_unlock(&libc_mu); return v; }
+int rand(void){ return libc_step(); }
+void srand(unsigned int s){ pthread_mutex_lock(&libc_mu); if(lib_running) nlibc++; libc_state = s; pthread_mutex_unlock(&libc_mu); }
+long random(void){ return libc_step(); }
+void srandom(unsigned int s){ srand(s); }
+double drand48(void){ return libc_step() / 1073741824.0; }
+long lrand48(void){ return libc_step(); }
+void srand48(long s){ srand((unsigned)s); }
+#define LIB_BEGIN() do{ nlibc = 0; lib_running = 1; }while(0)
+#define LIB_END() do{ lib_running = 0; }while(0)
+
+/* the disturber: another thread of the application that uses the generator while a library call runs on other threads */
+typedef struct { uint32_t seed; int k; int freerun; volatile int *stop; } darg;
+static void dist_draw(int i){ if(i % 3 == 0) (void)randInt(0, 1000); else if(i % 3 == 1) (void)randDouble(0.0, 1.0); else (void)rand_(); }
+static void *disturber_main(void *a_){
+  darg *D = a_; srand_(D->seed);
+  for(int i = 0; i < D->k; i++) dist_draw(i);
+  for(int r = 0; r < D->freerun && !(D->stop && *D->stop); r++){ if(r % 8 == 7) srand_(D->seed + 1 + r); dist_draw(r); if(r % 4 == 0) sched_yield(); }
+  return NULL;
+}
+
 static void recorder_reset(void){ memset(dead, 0, sizeof(dead)); nclock = 0; nev = 0; nwt = 0; naddr = 0; pos = 0; stuck = 0; unforced = 0; memset(steps, 0, sizeof(steps)); memset(inturn, 0, sizeof(inturn)); main_tid = pthread_self(); }
 static void rec_start(int gated){ recorder_reset(); gate_on = gated; rec_on = 1; libsci_verif_rng = rng_cb; }
 static void rec_stop(void){ libsci_verif_rng = NULL; gate_on = 0; rec_on = 0; }
@@ -115,34 +151,75 @@ static void gen_problem(prob *P, vrng *R, int algo, int n, int p, int ny, int nl
     for(int c = 0; c < ny; c++){ double s = 0; for(int j = 0; j < p; j++) s += P->x->data[i][j] * (j + 1 + c); P->y->data[i][c] = s + 0.5 * vr_norm(R); } }
 }
 static void free_problem(prob *P){ DelMatrix(&P->x); DelMatrix(&P->y); }
+/* input classes (INPUT-CLASSES.md) laid over a generated problem; all of them keep the fits well posed for the learner they are used with */
+enum { V_NONE = 0, V_OFFSET, V_BIG, V_SMALL, V_TIES, V_DUPROWS, V_CONSTCOL };
+static void apply_variant(prob *P, int v){
+  int n = P->n, p = P->p, ny = P->ny, reg = P->algo != A_LDA;
+  for(int i = 0; i < n; i++){
+    for(int j = 0; j < p; j++){ double *x = &P->x->data[i][j];
+      if(v == V_OFFSET) *x += 1e6; else if(v == V_BIG) *x *= 1e6; else if(v == V_SMALL) *x *= 1e-6;
+      else if(v == V_TIES && j == 0) *x = 0.1 * (i % 3) + (reg ? 0 : 5.0 * P->y->data[i][0]);      /* non-representable tied values */
+      else if(v == V_CONSTCOL && j == p - 1) *x = 0.1; }
+    if(reg) for(int c = 0; c < ny; c++){ double *y = &P->y->data[i][c];
+      if(v == V_OFFSET) *y += 1e5; else if(v == V_BIG) *y *= 1e6; else if(v == V_SMALL) *y *= 1e-6; else if(v == V_TIES) *y = 1e-3 * floor(*y); }
+  }
+  if(v == V_DUPROWS && n >= 6) for(int j = 0; j < p; j++){ P->x->data[1][j] = P->x->data[0][j]; P->x->data[n - 1][j] = P->x->data[2][j]; }
+  if(v == V_DUPROWS && n >= 6 && reg) for(int c = 0; c < ny; c++){ P->y->data[1][c] = P->y->data[0][c]; P->y->data[n - 1][c] = P->y->data[2][c]; }
+}
+/* LDA problems with k classes; style 0: labels 0..k-1 in the order i % k, 1: unsorted order, 2: 1-based labels */
+static void gen_lda(prob *P, vrng *R, int n, int p, int k, int style){
+  P->algo = A_LDA; P->n = n; P->p = p; P->ny = 1; P->nlv = 0; NewMatrix(&P->x, n, p); NewMatrix(&P->y, n, 1); P->ep = initElearningParameters();
+  for(int i = 0; i < n; i++){ int c = style == 1 ? (i * 7 + 2) % k : i % k; P->y->data[i][0] = c + (style == 2 ? 1 : 0);
+    for(int j = 0; j < p; j++) P->x->data[i][j] = vr_norm(R) + 5.0 * ((c + j) % k) + (j == 0 ? 3.0 * c : 0); }
+}
 static long HFIN = 0, HNUM = 0;   /* finite / all doubles that went into the result hashes of the current case (vacuity guard: a matrix of NaN is trivially reproducible) */
 static uint64_t hash_matrix(matrix *m){ uint64_t h = 1469598103934665603ULL; h ^= m->row; h *= 1099511628211ULL; h ^= m->col; h *= 1099511628211ULL;
   for(size_t i = 0; i < m->row; i++) for(size_t j = 0; j < m->col; j++){ uint64_t u; memcpy(&u, &m->data[i][j], 8); HNUM++; if(vfinite(m->data[i][j])) HFIN++; for(int b = 0; b < 8; b++){ h ^= (u >> (8 * b)) & 0xff; h *= 1099511628211ULL; } } return h; }
 #define H3(h) (long)((h) >> 43), (long)(((h) >> 22) & 0x1FFFFF), (long)((h) & 0x3FFFFF)
 static void boot(prob *P, int groups, int iters, int nth, matrix *pred){
   MODELINPUT in = initModelInput(); in.mx = P->x; in.my = P->y; in.nlv = (P->algo == A_PLS || is_epls(P->algo)) ? P->nlv : 0; in.xautoscaling = 1; in.yautoscaling = 0;
+  LIB_BEGIN();
   if(is_epls(P->algo)) BootstrapRandomGroupsCV(&in, groups, iters, ATYPE[P->algo], pred, NULL, nth, NULL, 2, P->ep, Averaging);
   else BootstrapRandomGroupsCV(&in, groups, iters, ATYPE[P->algo], pred, NULL, nth, NULL, 0);
+  LIB_END();
+}
+/* largest element-wise difference of two results relative to the largest reference magnitude, in units of 1e-12 (saturating; shape mismatch or NaN saturate) */
+static long rel_diff(matrix *ref, matrix *b){
+  if(ref->row != b->row || ref->col != b->col) return VQ_MAX;
+  double mx = 0, d = 0;
+  for(size_t i = 0; i < ref->row; i++) for(size_t j = 0; j < ref->col; j++){ double a = ref->data[i][j], c = b->data[i][j];
+    if(!vfinite(a) || !vfinite(c)){ uint64_t u, v; memcpy(&u, &a, 8); memcpy(&v, &c, 8); if(u != v) return VQ_MAX; continue; }
+    if(fabs(a) > mx) mx = fabs(a); if(fabs(a - c) > d) d = fabs(a - c); }
+  if(d == 0) return 0; if(mx == 0) return VQ_MAX;
+  return vq_unit(d / mx, 1e-12);
 }
 
-typedef struct { prob *P; int groups; int nw; int *word; int wl; int k; } sarg;
+typedef struct { prob *P; int groups; int nw; int *word; int wl; int k; int dist; } sarg;
+static uint32_t first_seed_seen = 0; static int first_seed_has = 0;
+static void seed_spy(int pt, const volatile uint32_t *word, uint32_t aux){ (void)word; if(pt == 0 && !first_seed_has){ first_seed_has = 1; first_seed_seen = aux; } }
 static int child_sched(void *a_){
   sarg *A = (sarg*)a_; prob *P = A->P;
   vrt_force_nproc(1); vrt_install_iter_budget(200000, 0);
   matrix *seq, *par; initMatrix(&seq); initMatrix(&par);
-  /* sequential reference: same iterations, one worker at a time (same seeds, same merge order) */
-  libsci_verif_rng = NULL; boot(P, A->groups, A->nw, 1, seq);
+  /* sequential reference: same iterations, one worker at a time (same seeds, same merge order); with a disturber the CV has NW-1 workers and the disturber owns a letter */
+  int ncv = A->dist ? A->nw - 1 : A->nw;
+  first_seed_has = 0; libsci_verif_rng = A->dist ? seed_spy : NULL; boot(P, A->groups, ncv, 1, seq); libsci_verif_rng = NULL;
   uint64_t hs = hash_matrix(seq);
-  { static char buf[4096]; int p = 0; p += snprintf(buf, sizeof(buf), "{\"e\":\"Run\",\"mode\":\"sched\",\"algo\":\"%s\",\"n\":%d,\"p\":%d,\"ny\":%d,\"nlv\":%d,\"groups\":%d,\"nw\":%d,\"k\":%d,\"word\":[", ANAME[P->algo], P->n, P->p, P->ny, P->nlv, A->groups, A->nw, A->k);
+  { static char buf[4096]; int p = 0; p += snprintf(buf, sizeof(buf), "{\"e\":\"Run\",\"mode\":\"sched\",\"algo\":\"%s\",\"n\":%d,\"p\":%d,\"ny\":%d,\"nlv\":%d,\"groups\":%d,\"nw\":%d,\"k\":%d,\"dist\":%d,\"cls\":[\"%s\"],\"word\":[", ANAME[P->algo], P->n, P->p, P->ny, P->nlv, A->groups, A->nw, A->k, A->dist,
+      A->dist ? "K6:disturber-forced-cv" : A->nw >= 4 ? "K6:forced-4-workers" : A->nw == 3 && A->k >= 2 ? "K6:forced-3-workers-k2" : "K6:forced-schedule");
     for(int i = 0; i < A->wl; i++) p += snprintf(buf + p, sizeof(buf) - p, "%s%d", i ? "," : "", A->word[i]); snprintf(buf + p, sizeof(buf) - p, "]}"); VRT_EMIT("%s", buf); }
   VRT_EMIT("{\"e\":\"Seq\",\"h\":[%ld,%ld,%ld],\"fin\":%ld,\"num\":%ld}", H3(hs), HFIN, HNUM);
   rec_start(1); NWK = A->nw; Q = A->wl / A->nw; slen = A->wl; for(int i = 0; i < slen; i++) sched[i] = A->word[i];   /* Q letters per worker: 2K+1 (seedDraw), 2(2K+1) (reseed) */
-  boot(P, A->groups, A->nw, A->nw, par);
+  volatile int dstop = 0; darg D = {A->dist && first_seed_has ? first_seed_seen : 777u, A->k, 4000, &dstop}; pthread_t dth;
+  if(A->dist) pthread_create(&dth, NULL, disturber_main, &D);      /* seeds with the seed the first CV worker uses (read off the sequential run) */
+  boot(P, A->groups, ncv, ncv, par);
+  int nl = nlibc;
+  if(A->dist){ dstop = 1; pthread_join(dth, NULL); }
   rec_stop();
   if(stuck){ VRT_EMIT("{\"e\":\"Stuck\",\"pos\":%d}", pos); return 3; }
   emit_events();
   uint64_t hp = hash_matrix(par);
-  VRT_EMIT("{\"e\":\"Result\",\"h\":[%ld,%ld,%ld],\"forced\":%d,\"addrs\":%d,\"skipped\":%d}", H3(hp), pos, naddr, unforced);
+  VRT_EMIT("{\"e\":\"Result\",\"h\":[%ld,%ld,%ld],\"forced\":%d,\"addrs\":%d,\"skipped\":%d,\"nth\":%d,\"rep\":0,\"dq\":%ld,\"libc\":%d}", H3(hp), pos, naddr, unforced, ncv, rel_diff(seq, par), nl);
   VRT_EMIT("{\"e\":\"End\"}");
   return 0;
 }
@@ -170,34 +247,115 @@ static int child_yscr(void *a_){
   return 0;
 }
 
-typedef struct { prob *P; int scheme, groups, iters, reps; int lab[64]; } carg;
+typedef struct { prob *P; int scheme, groups, iters, reps; int lab[64]; int nproc, resid, reuse, between, conc, creates; const char *cls; prob *Q; int qlab[64]; const char *mode; } carg;
+/* hook H5 on the calling thread: the seed every bootstrap worker is created with */
+typedef struct { int th, it; long seed; } crec;
+static crec CRE[256]; static int ncre = 0;
+static void cv_spy(const char *ev, size_t a, size_t b, size_t c, const void *data){ (void)data; if(!strcmp(ev, "create") && ncre < 256){ CRE[ncre].th = (int)a; CRE[ncre].it = (int)b; CRE[ncre].seed = (long)c; ncre++; } }
+static void cv_call(prob *P, int scheme, int groups, int iters, const int *lab, int nth, matrix *pred, matrix *res){
+  MODELINPUT in = initModelInput(); in.mx = P->x; in.my = P->y; in.nlv = P->algo == A_PLS ? P->nlv : 0; in.xautoscaling = 1; in.yautoscaling = 0;
+  LIB_BEGIN();
+  if(scheme == 0 || scheme == 3) BootstrapRandomGroupsCV(&in, groups, iters, ATYPE[P->algo], pred, res, nth, NULL, 0);
+  else if(scheme == 1) LeaveOneOut(&in, ATYPE[P->algo], pred, res, nth, NULL, 0);
+  else { uivector *g; NewUIVector(&g, P->n); for(int i = 0; i < P->n; i++) g->data[i] = lab[i]; KFoldCV(&in, g, ATYPE[P->algo], pred, res, nth, NULL, 0); DelUIVector(&g); }
+  LIB_END();
+}
 static int child_counts(void *a_){
   carg *A = (carg*)a_; prob *P = A->P;
-  vrt_force_nproc(1); vrt_install_iter_budget(200000, 0);
-  MODELINPUT in = initModelInput(); in.mx = P->x; in.my = P->y; in.nlv = P->algo == A_PLS ? P->nlv : 0; in.xautoscaling = 1; in.yautoscaling = 0;
+  vrt_force_nproc(A->nproc > 0 ? A->nproc : 1); vrt_install_iter_budget(200000, 0);
   static const char *SN[4] = {"boot", "loo", "kfold", "stress"};
   int reps = A->scheme == 3 ? A->reps : 2;
-  VRT_EMIT("{\"e\":\"Run\",\"mode\":\"counts:%s\",\"algo\":\"%s\",\"n\":%d,\"p\":%d,\"ny\":%d,\"nlv\":%d,\"groups\":%d,\"nw\":%d,\"k\":0,\"word\":[]}", SN[A->scheme], ANAME[P->algo], P->n, P->p, P->ny, P->nlv, A->groups, A->iters);
-  uint64_t h1 = 0; int caller_same = 1;
+  VRT_EMIT("{\"e\":\"Run\",\"mode\":\"%s:%s\",\"algo\":\"%s\",\"n\":%d,\"p\":%d,\"ny\":%d,\"nlv\":%d,\"groups\":%d,\"nw\":%d,\"k\":0,\"word\":[],\"nproc\":%d,\"resid\":%d,\"reuse\":%d,\"between\":%d,\"conc\":%d,\"cls\":[%s]}",
+           A->mode ? A->mode : "counts", SN[A->scheme], ANAME[P->algo], P->n, P->p, P->ny, P->nlv, A->groups, A->iters, A->nproc > 0 ? A->nproc : 1, A->resid, A->reuse, A->between, A->conc, A->cls ? A->cls : "");
+  uint64_t h1 = 0; int caller_same = 1; matrix *ref = NULL;
+  volatile int dstop = 0; darg D = {4242u, 3, 2000000000, &dstop}; pthread_t dth;      /* the concurrent disturber seeds with the CALLER's seed and draws until told to stop */
+  if(A->conc) pthread_create(&dth, NULL, disturber_main, &D);
+  if(A->creates && A->scheme == 0) libsci_verif_cv = cv_spy;
   for(int nth = 1; nth <= 8; nth++){
     if((A->scheme == 0 || A->scheme == 3) && A->iters % nth) continue;           /* bootstrap claim: counts dividing the iteration count */
     if(A->scheme == 3 && nth != 1 && nth != 8) continue;
-    for(int rep = 0; rep < (nth == 1 ? 1 : reps); rep++){
-      matrix *pred; initMatrix(&pred);
+    for(int rep = 0; rep < (nth == 1 && !(A->reuse || A->between) ? 1 : reps); rep++){
+      matrix *pred, *res = NULL; initMatrix(&pred); if(A->resid && P->algo != A_LDA) initMatrix(&res);
+      if(rep >= 1 && A->Q && (A->reuse || A->between)){
+        /* history: another fit (other data, other shape) runs first - into the very output matrices of the next call (reuse) or into its own */
+        /* (KFoldCV frees an output of another shape behind its caller's back - child_kfold_reshape reports that once, as a finding outside C06;
+           here its outputs are handed over already sized, holding the other fit's numbers) */
+        int inplace = A->reuse && A->scheme != 2;
+        matrix *o, *r2 = NULL; if(inplace){ o = pred; r2 = res; } else { initMatrix(&o); }
+        cv_call(A->Q, A->scheme == 3 ? 0 : A->scheme, A->groups, A->iters, A->qlab, nth, o, r2);
+        if(A->reuse && !inplace){ size_t sc = (size_t)P->ny * (P->algo == A_PLS ? (size_t)(P->nlv > P->p ? P->p : P->nlv) : 1);
+          ResizeMatrix(pred, P->n, sc); for(size_t i = 0; i < pred->row; i++) for(size_t j = 0; j < pred->col; j++) pred->data[i][j] = o->data[i % o->row][j % o->col];
+          if(res){ ResizeMatrix(res, P->n, sc); MatrixSet(res, 7.5); } }
+        if(!inplace) DelMatrix(&o);
+      }
       srand_(4242);
-      if(A->scheme == 0 || A->scheme == 3) BootstrapRandomGroupsCV(&in, A->groups, A->iters, ATYPE[P->algo], pred, NULL, nth, NULL, 0);
-      else if(A->scheme == 1) LeaveOneOut(&in, ATYPE[P->algo], pred, NULL, nth, NULL, 0);
-      else { uivector *g; NewUIVector(&g, P->n); for(int i = 0; i < P->n; i++) g->data[i] = A->lab[i]; KFoldCV(&in, g, ATYPE[P->algo], pred, NULL, nth, NULL, 0); DelUIVector(&g); }
+      ncre = 0;
+      cv_call(P, A->scheme, A->groups, A->iters, A->lab, nth, pred, res);
+      int nl = nlibc;
       /* did the call leave the caller's own seeded stream alone? (observation, implementation-shaped) */
       { int a[3], b[3]; for(int i = 0; i < 3; i++) a[i] = randInt(0, 1000000); srand_(4242); for(int i = 0; i < 3; i++) b[i] = randInt(0, 1000000); if(memcmp(a, b, sizeof(a))) caller_same = 0; }
-      uint64_t h = hash_matrix(pred); DelMatrix(&pred);
-      if(nth == 1 && rep == 0){ h1 = h; VRT_EMIT("{\"e\":\"Seq\",\"h\":[%ld,%ld,%ld],\"fin\":%ld,\"num\":%ld}", H3(h1), HFIN, HNUM); }
-      else if(A->scheme != 3 || h != h1 || rep == reps - 1) VRT_EMIT("{\"e\":\"Result\",\"h\":[%ld,%ld,%ld],\"forced\":0,\"addrs\":0,\"nth\":%d,\"rep\":%d}", H3(h), nth, rep);
+      uint64_t h = hash_matrix(pred); if(res){ h ^= hash_matrix(res) * 0x9E3779B97F4A7C15ULL; }
+      if(nth == 1 && rep == 0){ h1 = h; initMatrix(&ref); MatrixCopy(pred, &ref); VRT_EMIT("{\"e\":\"Seq\",\"h\":[%ld,%ld,%ld],\"fin\":%ld,\"num\":%ld,\"nth\":1}", H3(h1), HFIN, HNUM); }
+      else if(A->scheme != 3 || h != h1 || rep == reps - 1) VRT_EMIT("{\"e\":\"Result\",\"h\":[%ld,%ld,%ld],\"forced\":0,\"addrs\":0,\"nth\":%d,\"rep\":%d,\"dq\":%ld,\"libc\":%d}", H3(h), nth, rep, rel_diff(ref, pred), nl);
+      if(A->creates && A->scheme == 0){
+        for(int i = 0; i < ncre; i++) VRT_EMIT("{\"e\":\"Create\",\"th\":%d,\"it\":%d,\"seed\":%ld}", CRE[i].th, CRE[i].it, CRE[i].seed);
+        VRT_EMIT("{\"e\":\"Called\",\"iters\":%d,\"nth\":%d,\"ncreate\":%d}", A->iters, nth, ncre);
+      }
+      DelMatrix(&pred); if(res) DelMatrix(&res);
       if(A->scheme == 3 && h != h1) break;
     }
   }
+  libsci_verif_cv = NULL;
+  if(A->conc){ dstop = 1; pthread_join(dth, NULL); }
   VRT_EMIT("{\"e\":\"Caller\",\"same\":%d}", caller_same);
   VRT_EMIT("{\"e\":\"End\"}");
+  return 0;
+}
+
+/* probe (finding outside C06): KFoldCV into an output matrix that has another shape */
+static int child_kfold_reshape(void *a_){
+  carg *A = a_; prob *P = A->P; vrt_force_nproc(1); vrt_install_iter_budget(200000, 0);
+  matrix *fresh, *used; initMatrix(&fresh); NewMatrix(&used, P->n + 3, P->ny + 2);
+  cv_call(P, 2, 0, 0, A->lab, 2, fresh, NULL);
+  cv_call(P, 2, 0, 0, A->lab, 2, used, NULL);
+  return hash_matrix(fresh) == hash_matrix(used) ? 0 : 5;
+}
+/* in-process history (K7): fit A, free its inputs, allocate B where A was, fit another shape C, fit B into the output A filled; the reference is B alone in a FRESH process */
+typedef struct { prob *A, *B, *C; int scheme, groups, iters, nth, second; int lab[64]; } harg;
+static int child_hist(void *a_){
+  harg *H = a_;
+  vrt_force_nproc(1); vrt_install_iter_budget(200000, 0);
+  matrix *pred; initMatrix(&pred);
+  if(!H->second){
+    cv_call(H->B, H->scheme, H->groups, H->iters, H->lab, H->nth, pred, NULL);
+    uint64_t h = hash_matrix(pred);
+    VRT_EMIT("{\"e\":\"Seq\",\"h\":[%ld,%ld,%ld],\"fin\":%ld,\"num\":%ld,\"nth\":%d}", H3(h), HFIN, HNUM, H->nth);
+    return 0;
+  }
+  prob *A = H->A, *B = H->B;
+  srand_(99); (void)randInt(0, 10);                                   /* the caller's own stream is somewhere else */
+  cv_call(A, H->scheme, H->groups, H->iters, H->lab, H->nth, pred, NULL);
+  /* the SAME matrix objects refilled with B's numbers (same addresses, same shape, other data), another shape fitted in between, output reused */
+  for(int i = 0; i < B->n; i++){ for(int j = 0; j < B->p; j++) A->x->data[i][j] = B->x->data[i][j]; for(int j = 0; j < B->ny; j++) A->y->data[i][j] = B->y->data[i][j]; }
+  cv_call(A, H->scheme, H->groups, H->iters, H->lab, H->nth, pred, NULL);                                                   /* the very next call: same objects, same arguments, other numbers */
+  { uint64_t h0 = hash_matrix(pred); VRT_EMIT("{\"e\":\"Result\",\"h\":[%ld,%ld,%ld],\"forced\":0,\"addrs\":0,\"nth\":%d,\"rep\":1,\"libc\":%d,\"addrsame\":6,\"inplace\":1}", H3(h0), H->nth, nlibc); }
+  { matrix *o; initMatrix(&o); cv_call(H->C, H->scheme, H->groups, H->iters, H->lab, H->nth, o, NULL); DelMatrix(&o); }
+  cv_call(A, H->scheme, H->groups, H->iters, H->lab, H->nth, pred, NULL);
+  { uint64_t h0 = hash_matrix(pred); VRT_EMIT("{\"e\":\"Result\",\"h\":[%ld,%ld,%ld],\"forced\":0,\"addrs\":0,\"nth\":%d,\"rep\":1,\"libc\":%d,\"addrsame\":6,\"inplace\":2}", H3(h0), H->nth, nlibc); }
+  uintptr_t old[6] = {(uintptr_t)A->x, (uintptr_t)A->y, (uintptr_t)A->x->data, (uintptr_t)A->y->data, (uintptr_t)A->x->data[0], (uintptr_t)A->y->data[0]};   /* saved BEFORE the free */
+  prob B2 = *B; int n = B->n, p = B->p, ny = B->ny;
+  free_problem(A);
+  NewMatrix(&B2.x, n, p); NewMatrix(&B2.y, n, ny);                    /* same shape as A: the allocator hands out the blocks A had */
+  uintptr_t nw_[6] = {(uintptr_t)B2.x, (uintptr_t)B2.y, (uintptr_t)B2.x->data, (uintptr_t)B2.y->data, (uintptr_t)B2.x->data[0], (uintptr_t)B2.y->data[0]};
+  int same = 0; for(int a = 0; a < 6; a++) for(int b = 0; b < 6; b++) if(nw_[a] == old[b]) same++;      /* how many blocks of B sit where a block of A was (measured, never assumed) */
+  for(int i = 0; i < n; i++){ for(int j = 0; j < p; j++) B2.x->data[i][j] = B->x->data[i][j]; for(int j = 0; j < ny; j++) B2.y->data[i][j] = B->y->data[i][j]; }
+  { matrix *o; initMatrix(&o); cv_call(H->C, H->scheme, H->groups, H->iters, H->lab, H->nth, o, NULL); DelMatrix(&o); }      /* another shape in between */
+  cv_call(&B2, H->scheme, H->groups, H->iters, H->lab, H->nth, pred, NULL);                                                 /* into the output A filled */
+  uint64_t h = hash_matrix(pred);
+  VRT_EMIT("{\"e\":\"Result\",\"h\":[%ld,%ld,%ld],\"forced\":0,\"addrs\":0,\"nth\":%d,\"rep\":2,\"libc\":%d,\"addrsame\":%d}", H3(h), H->nth, nlibc, same);
+  cv_call(&B2, H->scheme, H->groups, H->iters, H->lab, H->nth, pred, NULL);                                                 /* and once more, into its own previous result */
+  h = hash_matrix(pred);
+  VRT_EMIT("{\"e\":\"Result\",\"h\":[%ld,%ld,%ld],\"forced\":0,\"addrs\":0,\"nth\":%d,\"rep\":3,\"libc\":%d,\"addrsame\":%d}", H3(h), H->nth, nlibc, same);
   return 0;
 }
 
@@ -252,6 +410,7 @@ static void gen_dcase(dcase *C, vrng *R, int r, int t){
 }
 static void free_dcase(dcase *C){ if(C->P.x) free_problem(&C->P); if(C->tx){ DelTensor(&C->tx); DelTensor(&C->ty); } if(C->fit) DelDVector(&C->fit); }
 
+static double LASTV[64]; static int NLASTV = 0;      /* the numeric output of the last PCARankValidation run (for "equal to rounding across processor counts") */
 /* one execution; returns the hash of EVERY output.  Caller-seeded routines are preceded by srand_(seed), as the statement's "after seeding" requires. */
 static uint64_t run_routine(dcase *C, int nth){
   HACC = 1469598103934665603ULL; hz(C->r);
@@ -264,7 +423,8 @@ static uint64_t run_routine(dcase *C, int nth){
     case R_KMPP: { uivector *sel; initUIVector(&sel); KMeansppCenters(C->P.x, C->k, sel, nth); h_uivector(sel); DelUIVector(&sel); break; }
     case R_KMCV0: case R_KMCV1: { dvector *ss; initDVector(&ss); KMeansRandomGroupsCV(C->P.x, C->k, C->r == R_KMCV0 ? 0 : 1, C->groups, C->iters, ss, nth); h_dvector(ss); DelDVector(&ss); break; }
     case R_KMJUMP: { dvector *j; initDVector(&j); KMeansJumpMethod(C->P.x, C->k, 0, j, nth); h_dvector(j); DelDVector(&j); break; }
-    case R_PCARANK: { dvector *r2; initDVector(&r2); PCARankValidation(C->P.x, C->k, 1, C->groups, C->iters, r2, NULL); h_dvector(r2); DelDVector(&r2); break; }
+    case R_PCARANK: { dvector *r2; initDVector(&r2); PCARankValidation(C->P.x, C->k, 1, C->groups, C->iters, r2, NULL); h_dvector(r2);
+      NLASTV = 0; for(size_t i = 0; i < r2->size && i < 64; i++) LASTV[NLASTV++] = r2->data[i]; DelDVector(&r2); break; }
     case R_UPLSCV: {
       dvector *r2x; tensor *q2y, *sdep, *py, *pr; initDVector(&r2x); initTensor(&q2y); initTensor(&sdep); initTensor(&py); initTensor(&pr);
       UPLSRandomGroupsCV(C->tx, C->ty, 1, 0, C->k, C->groups, C->iters, &r2x, &q2y, &sdep, &py, &pr, NULL);
@@ -318,6 +478,21 @@ static int child_direct(void *a_){
   { if(!CLOCKSEED[r]) fake_clock_val += 7;
     fresh_arg F = {C, maxth, 0}; pthread_t th; pthread_create(&th, NULL, fresh_main, &F); pthread_join(th, NULL);
     VRT_EMIT("{\"e\":\"Result\",\"h\":[%ld,%ld,%ld],\"forced\":0,\"addrs\":0,\"nth\":%d,\"rep\":0,\"fresh\":1}", H3(F.h), maxth); }
+  /* K6: the only drawing routine that reaches the MT_* kernels (through PCA) - inner processor counts 2, 3 and 5 (more slices than columns) */
+  if(r == R_PCARANK){
+    double refv[64]; int nref; vrt_force_nproc(1); (void)run_routine(C, 1); nref = NLASTV; memcpy(refv, LASTV, sizeof(refv));
+    for(int np = 0; np < 3; np++){
+      int nproc = (int[]){2, 3, 5}[np];
+      vrt_force_nproc((size_t)nproc); fake_clock_val += 7;
+      uint64_t h = run_routine(C, 1);
+      double mx = 0, d = 0; long dq = 0;
+      if(NLASTV != nref) dq = VQ_MAX; else { for(int i = 0; i < nref; i++){ if(!vfinite(refv[i]) || !vfinite(LASTV[i])){ if(memcmp(&refv[i], &LASTV[i], 8)) dq = VQ_MAX; continue; } if(fabs(refv[i]) > mx) mx = fabs(refv[i]); if(fabs(refv[i] - LASTV[i]) > d) d = fabs(refv[i] - LASTV[i]); }
+        if(dq == 0 && d > 0) dq = mx > 0 ? vq_unit(d / mx, 1e-12) : VQ_MAX; }
+      /* nth = the number of threads the configuration computes with (here: the forced processor count) */
+      VRT_EMIT("{\"e\":\"Result\",\"h\":[%ld,%ld,%ld],\"forced\":0,\"addrs\":0,\"nth\":%d,\"rep\":0,\"fresh\":0,\"nproc\":%d,\"dq\":%ld}", H3(h), nproc, nproc, dq);
+      vrt_force_nproc(1);
+    }
+  }
   VRT_EMIT("{\"e\":\"End\"}");
   quiet_end(so);
   return 0;
@@ -377,6 +552,63 @@ static int child_eplscv(void *a_){
   return 0;
 }
 
+/* ================= directly called routines next to a disturber thread, forced schedule words (mode dsched) ================= */
+typedef struct { dcase *C; int *word; int wl; int k; } dsarg;
+static int child_dsched(void *a_){
+  dsarg *A = a_; dcase *C = A->C; int r = C->r, so;
+  vrt_force_nproc(1); vrt_install_iter_budget(200000, 0);
+  quiet_begin(&so);
+  fake_clock_on = 1; fake_clock_val = 1700000000;
+  int nth = HASNTH[r] ? 2 : 1;
+  { static char buf[4096]; int p = 0; p += snprintf(buf, sizeof(buf), "{\"e\":\"Run\",\"mode\":\"dsched\",\"algo\":\"%s\",\"n\":%d,\"p\":%d,\"ny\":%d,\"nlv\":%d,\"groups\":%d,\"nw\":2,\"k\":%d,\"co\":0,\"ts\":%d,\"dist\":1,\"cls\":[\"K6:disturber-forced-direct\"],\"word\":[",
+      RNAME[r], C->n, C->p, C->ny, C->k, C->groups, A->k, CLOCKSEED[r]);
+    for(int i = 0; i < A->wl; i++) p += snprintf(buf + p, sizeof(buf) - p, "%s%d", i ? "," : "", A->word[i]); snprintf(buf + p, sizeof(buf) - p, "]}"); VRT_EMIT("%s", buf); }
+  LIB_BEGIN(); uint64_t h1 = run_routine(C, nth); LIB_END();         /* reference: alone, on the calling thread */
+  VRT_EMIT("{\"e\":\"Seq\",\"h\":[%ld,%ld,%ld],\"fin\":%ld,\"num\":%ld}", H3(h1), HFIN, HNUM);
+  if(!CLOCKSEED[r]) fake_clock_val += 7;
+  rec_start(1); NWK = 2; Q = A->wl / 2; slen = A->wl; for(int i = 0; i < slen; i++) sched[i] = A->word[i];
+  volatile int dstop = 0; darg D = {C->seed, A->k, 600, &dstop}; pthread_t dth, rth;     /* the disturber passes the very seed the routine is seeded with */
+  fresh_arg F = {C, nth, 0};
+  LIB_BEGIN();
+  pthread_create(&rth, NULL, fresh_main, &F); pthread_create(&dth, NULL, disturber_main, &D);
+  pthread_join(rth, NULL); LIB_END(); int nl = nlibc; dstop = 1; pthread_join(dth, NULL);
+  rec_stop();
+  if(stuck){ VRT_EMIT("{\"e\":\"Stuck\",\"pos\":%d}", pos); quiet_end(so); return 3; }
+  emit_events();
+  VRT_EMIT("{\"e\":\"Result\",\"h\":[%ld,%ld,%ld],\"forced\":%d,\"addrs\":%d,\"skipped\":%d,\"nth\":%d,\"rep\":0,\"fresh\":1,\"libc\":%d}", H3(F.h), pos, naddr, unforced, nth, nl);
+  VRT_EMIT("{\"e\":\"End\"}");
+  quiet_end(so);
+  return 0;
+}
+
+/* ================= stratified input / history classes (mode classes) ================= */
+typedef struct { int algo, scheme, n, p, ny, nlv, groups, iters, G, variant, nproc, resid, reuse, between, conc, creates, ldak, labstyle; const char *cls; } ccase;
+static const ccase CTAB[] = {
+  /* algo   scheme n   p   ny nlv groups iters G  variant     nproc resid reuse betw conc creates ldak style  classes */
+  { A_PLS, 0,    12, 3,  2, 2,  3,     5,    0, V_NONE,     1,    0,    0,    0,   0,   1,      0,   0, "\"K6:threads-5\",\"K1:ny>1\"" },
+  { A_MLR, 0,    14, 2,  1, 0,  4,     7,    0, V_NONE,     1,    0,    0,    0,   0,   1,      0,   0, "\"K6:threads-7\",\"K1:ny=1\"" },
+  { A_LDA, 0,    18, 2,  1, 0,  3,     10,   0, V_NONE,     1,    0,    0,    0,   0,   1,      3,   1, "\"K6:threads-5\",\"K10:lda-3-classes-unsorted\"" },
+  { A_PLS, 0,    8,  12, 1, 3,  4,     6,    0, V_NONE,     1,    1,    0,    0,   0,   0,      0,   0, "\"K1:wide\",\"K1:residual-output\",\"K6:threads-3-6\"" },
+  { A_PLS, 1,    7,  10, 2, 2,  0,     0,    0, V_NONE,     2,    0,    0,    0,   0,   0,      0,   0, "\"K1:wide\",\"K6:nproc2\",\"K2:loo-slices\"" },
+  { A_MLR, 1,    16, 1,  3, 0,  0,     0,    0, V_NONE,     1,    1,    1,    0,   0,   0,      0,   0, "\"K1:single-column\",\"K1:ny>1\",\"K7:reused-output\",\"K2:loo-n=2*8\"" },
+  { A_LDA, 1,    15, 3,  1, 0,  0,     0,    0, V_NONE,     1,    0,    0,    0,   0,   0,      2,   2, "\"K10:lda-1-based\",\"K2:loo-n=2*8-1\"" },
+  { A_PLS, 2,    17, 4,  1, 4,  0,     0,    8, V_NONE,     1,    0,    0,    1,   0,   0,      0,   0, "\"K1:nlv=rank\",\"K2:kfold-8-groups\",\"K7:other-fit-between\"" },
+  { A_MLR, 2,    20, 2,  2, 0,  0,     0,    9, V_NONE,     3,    0,    0,    0,   0,   0,      0,   0, "\"K2:kfold-9-groups\",\"K6:nproc3\"" },
+  { A_PLS, 0,    16, 3,  1, 1,  2,     8,    0, V_OFFSET,   1,    0,    0,    0,   1,   0,      0,   0, "\"K3:offset-1e6\",\"K6:concurrent-disturber\",\"K1:nlv=1\",\"K6:threads-8\"" },
+  { A_MLR, 0,    12, 2,  1, 0,  3,     12,   0, V_BIG,      1,    0,    1,    0,   0,   0,      0,   0, "\"K4:scale-1e6\",\"K7:reused-output\",\"K6:threads-3-4-6\"" },
+  { A_PLS, 1,    9,  2,  1, 2,  0,     0,    0, V_SMALL,    5,    0,    0,    0,   0,   0,      0,   0, "\"K4:scale-1e-6\",\"K6:nproc5>cols\"" },
+  { A_PLS, 2,    12, 3,  2, 2,  0,     0,    4, V_TIES,     1,    1,    0,    0,   0,   0,      0,   0, "\"K5:ties-0.1\",\"K1:residual-output\",\"K2:kfold-4-groups\"" },
+  { A_PLS, 0,    13, 3,  1, 2,  5,     4,    0, V_DUPROWS,  1,    0,    0,    1,   1,   0,      0,   0, "\"K8:duplicate-rows\",\"K7:other-fit-between\",\"K6:concurrent-disturber\"" },
+  { A_PLS, 1,    10, 3,  1, 2,  0,     0,    0, V_CONSTCOL, 1,    0,    0,    0,   0,   0,      0,   0, "\"K8:constant-column\"" },
+  { A_LDA, 0,    20, 3,  1, 0,  4,     6,    0, V_NONE,     2,    0,    1,    0,   1,   0,      2,   0, "\"K6:nproc2\",\"K7:reused-output\",\"K6:concurrent-disturber\"" },
+  { A_MLR, 1,    6,  1,  1, 0,  0,     0,    0, V_NONE,     1,    0,    0,    0,   0,   0,      0,   0, "\"K6:threads>items\"" },
+  { A_PLS, 0,    32, 4,  2, 3,  4,     16,   0, V_NONE,     2,    1,    0,    0,   0,   1,      0,   0, "\"K2:n=32\",\"K6:nproc2\",\"K6:threads-8\",\"K1:residual-output\"" },
+  { A_LDA, 1,    16, 2,  1, 0,  0,     0,    0, V_NONE,     3,    0,    0,    1,   0,   0,      3,   1, "\"K10:lda-3-classes-unsorted\",\"K6:nproc3\",\"K7:other-fit-between\"" },
+  { A_MLR, 0,    33, 3,  2, 0,  8,     14,   0, V_OFFSET,   1,    1,    0,    0,   0,   1,      0,   0, "\"K3:offset-1e6\",\"K2:n=33\",\"K6:threads-7\",\"K1:residual-output\"" },
+  { A_MLR, 2,    15, 2,  1, 0,  0,     0,    3, V_DUPROWS,  1,    1,    1,    0,   1,   0,      0,   0, "\"K8:duplicate-rows\",\"K7:reused-output\",\"K6:concurrent-disturber\",\"K6:threads>items\"" },
+};
+#define NCTAB ((int)(sizeof(CTAB) / sizeof(CTAB[0])))
+
 static void crash(int rc, const char *mode, prob *P){ VRT_EMIT("{\"e\":\"Crash\",\"rc\":%d,\"mode\":\"%s\",\"algo\":\"%s\",\"n\":%d}", rc, mode, ANAME[P->algo], P->n); }
 
 int main(int argc, char **argv){
@@ -392,12 +624,12 @@ int main(int argc, char **argv){
     while(fgets(line, sizeof(line), f)){
       int word[256], wl = 0; char *tok = strtok(line, " \n"); while(tok && wl < 256){ word[wl++] = atoi(tok); tok = strtok(NULL, " \n"); }
       if(wl == 0) continue;
-      int eplsset = argc > 7 && atoi(argv[7]) == 1;
+      int eplsset = argc > 7 && atoi(argv[7]) == 1, dist = argc > 7 && atoi(argv[7]) == 2;
       int algo = t % 3 + (eplsset ? 3 : 0); t++;
       prob P;
       if(eplsset){ gen_problem(&P, &R, algo, 9 + (t / 3) % 2, 4, 1, 1); set_eparm(&P, 4, 0.7, 3); }   /* small (but large enough for finite ensemble weights): the group generator of a worker should finish inside the forced window of the long sampled words so that the re-seed of the first ensemble member is forced too */
       else gen_problem(&P, &R, algo, algo == A_LDA ? 16 : 12, algo == A_LDA ? 2 : 3, algo == A_LDA ? 1 : 2, 2);
-      sarg A = {&P, algo == A_LDA ? 8 : 3, nw, word, wl, k};
+      sarg A = {&P, algo == A_LDA ? 8 : 3, nw, word, wl, k, dist};
       VRT_EMIT("{\"e\":\"Reset\"}");
       int rc = vrt_run_child(child_sched, &A, 120);
       if(rc == 3) infra = 1; else if(rc != 0) crash(rc, "sched", &P);
@@ -463,6 +695,64 @@ int main(int argc, char **argv){
       if(rc != 0) VRT_EMIT("{\"e\":\"Crash\",\"rc\":%d,\"mode\":\"eplscv\",\"algo\":\"%s\",\"n\":%d}", rc, ANAME[algo], P.n);
       free_problem(&P);
     }
+  }
+  else if(!strcmp(mode, "classes")){
+    int nc = atoi(argv[4]), first = argc > 5 ? atoi(argv[5]) : 0;
+    for(int t = first; t < first + nc; t++){
+      const ccase *c = &CTAB[t % NCTAB]; int round = t / NCTAB;
+      prob P, Qp;
+      if(c->algo == A_LDA){ gen_lda(&P, &R, c->n + round % 3, c->p, c->ldak, c->labstyle); gen_lda(&Qp, &R, c->n + 3, c->p + 1, c->ldak, c->labstyle); }
+      else { gen_problem(&P, &R, c->algo, c->n + round % 3, c->p, c->ny, c->nlv); gen_problem(&Qp, &R, c->algo, c->n + 3, c->p + 1, c->ny, c->nlv); }
+      apply_variant(&P, c->variant);
+      carg A; memset(&A, 0, sizeof(A)); A.P = &P; A.Q = &Qp; A.scheme = c->scheme; A.groups = c->groups; A.iters = c->iters ? c->iters : P.n; A.mode = "classes"; A.cls = c->cls;
+      A.nproc = c->nproc; A.resid = c->resid; A.reuse = c->reuse; A.between = c->between; A.conc = c->conc; A.creates = c->creates;
+      for(int i = 0; i < P.n && i < 64; i++) A.lab[i] = c->G ? (i * 7 + t) % c->G : 0;
+      for(int i = 0; i < Qp.n && i < 64; i++) A.qlab[i] = c->G ? (i * 5 + t) % c->G : 0;
+      VRT_EMIT("{\"e\":\"Reset\"}");
+      int rc = vrt_run_child(child_counts, &A, 300);
+      if(rc != 0) crash(rc, "classes", &P);
+      if(c->scheme == 2 && c->reuse && round == 0){
+        rc = vrt_run_child(child_kfold_reshape, &A, 120);
+        if(rc != 0) VRT_EMIT("{\"e\":\"Broken\",\"rc\":%d,\"algo\":\"KFoldCV(output of another shape)\",\"n\":%d}", rc, P.n);
+      }
+      free_problem(&P); free_problem(&Qp);
+    }
+  }
+  else if(!strcmp(mode, "hist")){
+    int nc = atoi(argv[4]);
+    static const char *SN[3] = {"boot", "loo", "kfold"};
+    for(int t = 0; t < nc; t++){
+      int algo = t % 3, scheme = (t / 3) % 3; if(algo == A_LDA && scheme == 2) scheme = 1;
+      int n = 12 + t % 4, p = algo == A_LDA ? 2 : 2 + t % 2, ny = algo == A_LDA ? 1 : 1 + t % 2, nth = 2 + t % 3;
+      prob PA, PB, PC;
+      if(algo == A_LDA){ gen_lda(&PA, &R, n + 4, p, 2, 0); gen_lda(&PB, &R, n + 4, p, 2, 0); gen_lda(&PC, &R, n + 7, p + 1, 2, 0); }
+      else { gen_problem(&PA, &R, algo, n, p, ny, 2); gen_problem(&PB, &R, algo, n, p, ny, 2); gen_problem(&PC, &R, algo, n + 3, p + 1, ny, 2); }
+      harg H; memset(&H, 0, sizeof(H)); H.A = &PA; H.B = &PB; H.C = &PC; H.scheme = scheme; H.groups = algo == A_LDA ? 4 : 3; H.nth = nth; H.iters = 2 * nth;
+      for(int i = 0; i < 64; i++) H.lab[i] = (i * 7 + t) % 3;
+      VRT_EMIT("{\"e\":\"Reset\"}");
+      VRT_EMIT("{\"e\":\"Run\",\"mode\":\"hist:%s\",\"algo\":\"%s\",\"n\":%d,\"p\":%d,\"ny\":%d,\"nlv\":%d,\"groups\":%d,\"nw\":%d,\"k\":0,\"word\":[],\"cls\":[\"K7:new-data-same-address\",\"K7:refit-at-freed-address\",\"K7:reused-output\",\"K7:other-shape-between\"]}",
+               SN[scheme], ANAME[algo], PB.n, PB.p, PB.ny, PB.nlv, H.groups, H.iters);
+      H.second = 0; int rc = vrt_run_child(child_hist, &H, 300);
+      if(rc == 0){ H.second = 1; rc = vrt_run_child(child_hist, &H, 300); }
+      if(rc != 0) crash(rc, "hist", &PB); else VRT_EMIT("{\"e\":\"End\"}");
+      free_problem(&PA); free_problem(&PB); free_problem(&PC);
+    }
+  }
+  else if(!strcmp(mode, "dsched")){
+    FILE *f = fopen(argv[4], "r"); if(!f){ perror("dsched"); return 2; }
+    int k = atoi(argv[5]), first = argc > 6 ? atoi(argv[6]) : 0; char line[4096]; int t = first;
+    while(fgets(line, sizeof(line), f)){
+      int word[256], wl = 0; char *tok = strtok(line, " \n"); while(tok && wl < 256){ word[wl++] = atoi(tok); tok = strtok(NULL, " \n"); }
+      if(wl == 0) continue;
+      int r = t % NROUT;
+      dcase C; gen_dcase(&C, &R, r, t / NROUT + t); t++;
+      dsarg A = {&C, word, wl, k};
+      VRT_EMIT("{\"e\":\"Reset\"}");
+      int rc = vrt_run_child(child_dsched, &A, 120);
+      if(rc == 3) infra = 1; else if(rc != 0) VRT_EMIT("{\"e\":\"Crash\",\"rc\":%d,\"mode\":\"dsched\",\"algo\":\"%s\",\"n\":%d}", rc, RNAME[r], C.n);
+      free_dcase(&C);
+    }
+    fclose(f);
   }
   else if(!strcmp(mode, "stress")){
     /* many workers accumulating at once: any state shared between workers without synchronisation loses updates sooner or later.
